@@ -33,8 +33,8 @@ def run(prog, rep):
     aspects = {("getitem", "result"): "C06.read-region", ("setitem", "result"): "C06.write-region",
                ("getitem", "raises"): "C06.refusals", ("getitem-illformed", "raises"): "C06.refusals",
                ("split", "result"): "C06.split", ("stack", "result"): "C06.write-region"}
-    for a in ("_init_ids", "_init_dims_out", "_get_def_dict", "to_flodym_array"):
-        prog.method("SubArrayHandler", a)
+    prog.cls("SubArrayHandler")
+    prog.method("FlodymArray", "__getitem__")
     run_array_property(prog, rep, "C06", ["index", "orders", "misc", "index@uniform", "misc@uniform"], aspects)
     rep.rules["C06.read-region"]["floor"] = 85 if rep.tier == "quick" else 1365
     rep.rules["C06.write-region"]["floor"] = 85 if rep.tier == "quick" else 1365
